@@ -355,4 +355,5 @@ def run(ctx):
         "vario_estimate -> standard_bins and Krige.set_condition -> vario_estimate; (R13.2) forward/inverse conversions agree on keywords, time handling (divide/multiply by the LAST ratio, time appended last), "
         "row conventions and elementary inverse functions; (R13.3) forcing sites (dim 3(+1), spatial ratios 1, zeroed angles, chordal lags in fitting, radian bins, refused directional/anisotropic/vector cases); "
         "(R13.4) anisotropy ratios are stored only via set_len_anis. NOT decided: round-trip identity and rotation invariance as values."
+        ' The two chord conversions are inverse to each other as formulas; the haversine arguments carry deg_2_rad exactly once and the central angle is 2 atan2(sqrt a, sqrt(1 - a)).'
     )
